@@ -443,11 +443,33 @@ impl SourceFile {
     ///
     /// Returns None if the offset is out of bounds.
     pub fn get_line_column(&self, offset: usize) -> Option<LineColumn> {
-        let (_, zero_indexed_line, zero_indexed_column) = self.ariadne().get_byte_line(offset)?;
-        Some(LineColumn {
-            line: zero_indexed_line + 1,
-            column: zero_indexed_column + 1,
-        })
+        let text = self.source_text.as_str();
+        if offset > text.len() {
+            return None;
+        }
+        // Lines are separated by a GraphQL LineTerminator: "\n", "\r\n", or "\r".
+        // <https://spec.graphql.org/October2021/#LineTerminator>
+        let bytes = text.as_bytes();
+        let mut line = 1;
+        let mut line_start = 0;
+        for (index, &byte) in bytes[..offset].iter().enumerate() {
+            let ends_line = match byte {
+                b'\n' => true,
+                b'\r' => bytes.get(index + 1) != Some(&b'\n'),
+                _ => false,
+            };
+            if ends_line {
+                line += 1;
+                line_start = index + 1;
+            }
+        }
+        // Columns count characters (Unicode Scalar Values), not bytes.
+        let column = text[line_start..]
+            .char_indices()
+            .take_while(|(index, _)| line_start + index < offset)
+            .count()
+            + 1;
+        Some(LineColumn { line, column })
     }
 
     /// Get starting and ending [`LineColumn`]s for the given `range` 0-indexed UTF-8 byte offsets.
